@@ -1,10 +1,11 @@
 (* Extraction of the executable model to OCaml (run from /verif/ocaml/gen). *)
 From Coq Require Import Extraction ExtrOcamlBasic.
-From GV Require Import Base.Util Circuit.Ssa Circuit.Reg.
+From GV Require Import Base.Util Base.NMap Circuit.Ssa Circuit.Reg Circuit.RegAlloc.
 Extraction Language OCaml.
 Set Extraction AccessOpaque.
 Separate Extraction
   BinNat.N BinInt.Z
   Util.nthN Util.lenN
   Ssa.ssa_validate Ssa.ssa_eval Ssa.and_gates
-  Reg.reg_validate Reg.reg_eval Reg.reg_eval_strict.
+  Reg.reg_validate Reg.reg_eval Reg.reg_eval_strict
+  RegAlloc.convert.
